@@ -34,6 +34,28 @@ func init() {
 		vrtPkg + "Now":        func(fr *frame, args []value) value { return fr.i.vclock },
 		vrtPkg + "ThreadID":   func(fr *frame, args []value) value { return fr.i.sched.cur.id },
 		vrtPkg + "Yield":      func(fr *frame, args []value) value { fr.i.schedPoint(fr, "yield"); return nil },
+		vrtPkg + "And": func(fr *frame, args []value) value {
+			return norm(types.Bool, smt.And(toTerm(args[0]), toTerm(args[1])))
+		},
+		vrtPkg + "Or": func(fr *frame, args []value) value {
+			return norm(types.Bool, smt.Or(toTerm(args[0]), toTerm(args[1])))
+		},
+		vrtPkg + "Not": func(fr *frame, args []value) value {
+			return norm(types.Bool, smt.Not(toTerm(args[0])))
+		},
+		vrtPkg + "EqInt": func(fr *frame, args []value) value {
+			return norm(types.Bool, smt.Eq(toTerm(args[0]), toTerm(args[1])))
+		},
+		vrtPkg + "IteInt": func(fr *frame, args []value) value {
+			return norm(types.Int, smt.Ite(toTerm(args[0]), toTerm(args[1]), toTerm(args[2])))
+		},
+		vrtPkg + "Tick": func(fr *frame, args []value) value {
+			i := fr.i
+			old := i.tick
+			i.logUndo(func() { i.tick = old })
+			i.tick++
+			return i.tick
+		},
 	} {
 		externals[k] = v
 	}
